@@ -16,7 +16,7 @@ EXPLANATION = ("H1 panic-source cone over the MIR call graph (resolved callees, 
                "leaves the driver loop with Err (dropping all reply senders); H5 a frame that has arrived completely is delivered or rejected, "
                "never awaited: the frame decoder's path rules (shared with C06 G1 / G2) and, in the default and the gssapi configuration, "
                "Decoder::decode on a connection without a security layer answers what the frame decoder answers - a test of its own may say "
-               "Ok(None) only for buffers too short to hold any complete element (rules/wrapper.py); H7 (C04 L6) the one-operation driver hands the connection back, and so stops decoding, only after the pending operation was answered; H8 what is and is not an LDAPMessage envelope: the frame decoder interpreted exactly on literal element trees - a well-formed envelope (universal constructed SEQUENCE of messageID 0..maxInt, protocolOp, controls [0] OPTIONAL) is delivered with the ID and operation it holds, each single-field mutation (class, tag number or form of the outer element; an element in front of the message ID; the ID missing, of another class / tag / form, empty, negative or too wide; a primitive controls element) is answered with an error.  Not decided: memory exhaustion on huge announced lengths; "
+               "Ok(None) only for buffers too short to hold any complete element (rules/wrapper.py); H7 (C04 L6) the one-operation driver hands the connection back, and so stops decoding, only after the pending operation was answered; H8 what is and is not an LDAPMessage envelope: the frame decoder interpreted exactly on element trees (rules/envelope.py) - a well-formed envelope (universal constructed SEQUENCE of messageID 0..maxInt, protocolOp, controls [0] OPTIONAL; without, with an empty, with one, two and any controls, for any protocolOp and any ID content) is delivered with the ID, the operation and the controls it holds, each single-field mutation (class, tag number or form of the outer element; an element in front of the message ID; the ID missing, of another class / tag / form, empty, negative or too wide; a primitive, second or misplaced controls element; another element after the operation) is answered with an error, and the control-list decoder is only ever handed a constructed element (H6).  Not decided: memory exhaustion on huge announced lengths; "
                "panics inside external crates beyond the may-panic table.")
 TRUSTED = ['the frozen may-panic classification of external callees (listed in the evidence)', 'reviewed triage table rules/triage/C11.tsv']
 UNDECIDED = ['allocation size / memory exhaustion', 'panics inside external crates not marked #[track_caller] and not in the may-panic table',
@@ -31,7 +31,7 @@ SHARED = [('C01', ('R1.envelope-path', 'R1.decoder'), 'H6.guards-of-reviewed-sou
           # whatever follows on the wire is never decoded, the decoding error is never raised and the pending operation neither
           # observes it nor ends.  C04 L6 decides, on the paths of the arms, that the connection is handed back only after a reply was
           # delivered to the operation registered under the decoded ID
-          ('C04', ('L6.',), 'H7.driver-reads-on-until-the-pending-operation-is-answered')]      # H6: two panic sources are reviewed as infeasible because the frame decoder guards them (only a constructed [0] reaches the control-list decoder; only Tag::StructureTag leaves the decoder): those guards are re-decided on every run
+          ('C04', ('L6.',), 'H7.driver-reads-on-until-the-pending-operation-is-answered')]      # H6: two panic sources are reviewed as infeasible because the frame decoder guards them (only a constructed [0] reaches the control-list decoder: decided on the envelope trees, see check_envelope_shape; only Tag::StructureTag leaves the decoder: C01 R1.envelope-path, on every success path): those guards are re-decided on every run
 
 QUICK_CONFIGS = ['default', 'gssapi']      # the decoder has a second form with the gssapi feature (the SASL token layer around the frame decoder): a frame that is awaited forever there wedges the connection just the same
 
